@@ -313,6 +313,11 @@ func init() {
 		ad := newRecAdapter(prio, 0)
 		n := e.p("preloaded", 1+r.Intn(5))
 		for i := 0; i < n; i++ {
+			if r.Intn(5) == 0 {
+				// an entry the consumer cannot decode, among the valid ones
+				ad.inject([]byte(`{"id":"bad","status":"Bogus","data":1}`), r.Intn(3), -1)
+				e.params["bad"]++
+			}
 			s := e.newSub(0, r.Intn(3), oOK, false, fmt.Sprintf("rec-%d", i))
 			s.accepted = true
 			raw := []byte(fmt.Sprintf(`{"id":"rec-%d","status":"Created","data":%d}`, i, s.data))
@@ -386,6 +391,16 @@ func init() {
 		}
 		if !bindFirst {
 			jn.goClient("binder", func() { vt.Yield(); bindAll() })
+		}
+		if r.Intn(3) == 0 {
+			jn.goClient("foreign", func() {
+				vt.Yield()
+				ad.inject([]byte(`not json at all`), r.Intn(3), -1)
+				e.params["bad"]++
+				for _, w := range ws {
+					w.notifyToPullNextJobs()
+				}
+			})
 		}
 		jn.wait()
 		vt.WaitIdle()
